@@ -31,7 +31,13 @@ META = dict(
          "over two to four in-process redis servers with 5-9 weight vectors: the server observed to hold a key "
          "(miniredis inspection) has positive weight and stays the same across Set, Del+Set, batch Del+Set. The same "
          "contract is also validated on rings built with NewCustomConsistentHash and a caller-supplied hash function "
-         "(share statistic not applied there). Class-share statistic: on rings with 100/150/250 (thorough also 199/330) "
+         "(share statistic not applied there). REPLICA SETTING as a dimension ('c*' plans): every history starts with the operation 'new'(s), "
+         "s in {0, 1, 5, 50, 99, 100} (thorough also 200 on base 200) - the driver creates the ring with "
+         "NewCustomConsistentHash(s, nil or the caller-supplied function); the contract is evaluated with BaseOf(s) (a setting "
+         "below the minimum of 100 is raised to it, ConsistentHash.tla), so with weights {0, 1, 4, 10, 50, 100} a node of positive "
+         "weight is live whatever the setting (complete to 2-3 operations after 'new', thorough also seeded 30-operation histories; "
+         "census of lone small-weight nodes per setting in evidence, guarded against vacuity). The class-share statistic is also "
+         "taken on rings created with settings 1, 3, 50 (thorough 0, 1, 3, 5, 20, 50, 99). Class-share statistic: on rings with 100/150/250 (thorough also 199/330) "
          "virtual nodes per full node, ten nodes each added by Add, AddWithWeight(100), AddWithWeight(50), 40 000-100 000 "
          "fixed keys, every class share within +-15 % of the weight-proportional share (deterministic: names and keys are "
          "fixed; weights above 100 left out, the statement is silent about them). BEYOND THE STATEMENT (which does not quantify over concurrency): Get "
@@ -79,10 +85,13 @@ def mc(ctx):
 
 # ------------------------------------------------------------------------------- generate
 
-def gen(ctx, name, nodes, weights, reps, base, maxops, simulate=None, family="all"):
-    """family 'drain' = only histories in which the ring returns to empty (ConsistentHashGen.tla, Wanted)."""
+def gen(ctx, name, nodes, weights, reps, base, maxops, simulate=None, family="all", settings=()):
+    """family 'drain' = only histories in which the ring returns to empty (ConsistentHashGen.tla, Wanted).
+    settings: replica settings offered to the leading "new" operation (ConsistentHashGen.tla ASSUMEs that each of
+    them has BaseOf(setting) = base; () = no "new" operation, the driver creates the ring from base)."""
     K = consts(nodes, weights, reps, base)
     K["MaxOps"] = maxops
+    K["Settings"] = "{%s}" % ", ".join(map(str, settings))
     K["Family"] = '"%s"' % family
     cfg = core.render_cfg(spec="GSpec", constants=K, invariants=["Emit"])
     r = ctx.tlc("ConsistentHashGen", cfg, constants=K, name=name, simulate=simulate,
@@ -254,8 +263,8 @@ def describe(h, k, failed):
     prior = [json.loads(x) for x in h[1:k]]
     msg = ("base=%s history #%s step %d %s: %sobservation rejected by the contract, clauses %s; "
            "ops so far %s; observed asg=%s asg2=%s alt=%s altd=%s cnt=%s mv=%s; previous asg=%s") % (
-        reset.get("base"), reset.get("h"), step, {f: ev[f] for f in ("ev", "n", "w", "r") if f in ev}, pan, failed,
-        [{f: e[f] for f in ("ev", "n", "w", "r") if f in e} for e in prior],
+        reset.get("base"), reset.get("h"), step, {f: ev[f] for f in ("ev", "n", "w", "r", "set") if f in ev}, pan, failed,
+        [{f: e[f] for f in ("ev", "n", "w", "r", "set") if f in e} for e in prior],
         ev.get("asg"), ev.get("asg2"), ev.get("alt"), ev.get("altd"), ev.get("cnt"), ev.get("mv"),
         prior[-1]["asg"] if prior else "init")
     return key, msg, reset.get("h"), step
@@ -385,25 +394,33 @@ def class_shares(ctx):
     want = dict(add=100.0, w100=100.0, w50=50.0)
     tot = sum(want.values())
     measured = {}
-    for base in ([100, 150, 250] if ctx.quick else [100, 150, 199, 250, 330]):
-        rc, out = ctx.go_test(PKG, OVERLAY, "^TestVerifC13Shares$", name="shares-%d" % base, timeout=300, extra=["-v"],
-                              env=dict(VERIF_BASE=base, VERIF_POP=(40000 if ctx.quick else 100000)))
+    # (base, setting): setting None = ring created from base (NewConsistentHash for 100); a setting below the
+    # minimum is handed to NewCustomConsistentHash as it is - the ring must behave as one with 100 virtual nodes
+    rings = [(b, None) for b in ([100, 150, 250] if ctx.quick else [100, 150, 199, 250, 330])]
+    rings += [(100, s) for s in ([1, 3, 50] if ctx.quick else [0, 1, 3, 5, 20, 50, 99])]
+    for base, setting in rings:
+        tag = "%d" % base if setting is None else "s%d" % setting
+        rc, out = ctx.go_test(PKG, OVERLAY, "^TestVerifC13Shares$", name="shares-" + tag, timeout=300, extra=["-v"],
+                              env=dict(VERIF_BASE=base, VERIF_SETTING=("" if setting is None else setting),
+                                       VERIF_POP=(40000 if ctx.quick else 100000)))
         line = [l for l in out.splitlines() if l.startswith("C13SHARE ")]
         if rc != 0 or not line:
             raise core.Infra("share driver failed rc=%s\n%s" % (rc, out[-2000:]))
         m = json.loads(line[0][len("C13SHARE "):])
-        if panics(ctx, "ring with %d virtual nodes per full node, thirty nodes, %d lookups" % (base, m["pop"]), m.get("pan"), "statistic"):
+        ringd = "ring with %d virtual nodes per full node" % base if setting is None else \
+            "ring created with NewCustomConsistentHash(%d, nil) (raised to %d virtual nodes per full node)" % (setting, base)
+        if panics(ctx, "%s, thirty nodes, %d lookups" % (ringd, m["pop"]), m.get("pan"), "statistic"):
             continue        # shares of a ring whose calls do not return are not a statistic
         rel = {}
         for k, w in want.items():
             rel[k] = round((m[k] / m["pop"]) / (w / tot), 4)
-        measured[str(base)] = dict(counts={k: m[k] for k in ("add", "w100", "w50", "none")}, relative_to_weight_share=rel)
+        measured[tag] = dict(counts={k: m[k] for k in ("add", "w100", "w50", "none")}, relative_to_weight_share=rel)
         bad = {k: v for k, v in rel.items() if abs(v - 1) > SHARE_TOL}
         if bad or m["none"]:
             ctx.disagree("C13:class-share",
-                         "ring with %d virtual nodes per full node, ten nodes each added by Add / AddWithWeight(100) / "
+                         "%s, ten nodes each added by Add / AddWithWeight(100) / "
                          "AddWithWeight(50), %d keys: class shares relative to the weight-proportional share %s "
-                         "(counts %s); outside +-%d%%: %s" % (base, m["pop"], rel, measured[str(base)]["counts"],
+                         "(counts %s); outside +-%d%%: %s" % (ringd, m["pop"], rel, measured[tag]["counts"],
                                                             int(SHARE_TOL * 100), bad), case=None, source="statistic")
     ctx.notes["class_shares"] = measured
 
@@ -431,6 +448,8 @@ def drain_census(cases, base, acc):
     for c in cases:
         mem, had_live, was_empty = {}, False, True
         for o in (json.loads(c) if isinstance(c, str) else c):
+            if o["op"] == "new":        # creates the (empty) ring: no step on a ring with a past
+                continue
             v = eff(o, base)
             drained_before = had_live and was_empty
             if v is None:
@@ -445,10 +464,38 @@ def drain_census(cases, base, acc):
                 acc["drained"] += 1
 
 
+def settings_census(cases, settings, acc):
+    """Per replica setting: histories executed, and steps after which the only added node is one added by
+    AddWithWeight with a weight of 1..10 (the lookups after such a step must find it whatever the setting)."""
+    if not settings:
+        return
+    for c in cases:
+        ops = json.loads(c) if isinstance(c, str) else c
+        if not ops or ops[0].get("op") != "new":
+            raise core.Infra("history of a replica-setting plan does not start with 'new': %s" % (ops[:1],))
+        a = acc.setdefault(ops[0]["set"], dict(histories=0, lone_small_weight=0))
+        a["histories"] += 1
+        mem = {}
+        for o in ops[1:]:
+            if o["op"] == "remove":
+                mem.pop(o["n"], None)
+            else:
+                mem[o["n"]] = o
+            if len(mem) == 1:
+                (x,) = mem.values()
+                if x["op"] == "addw" and 1 <= x["w"] <= 10:
+                    a["lone_small_weight"] += 1
+
+
 def run(ctx):
     mc(ctx)
     binp = ctx.go_build(PKG, OVERLAY, name="c13drv")
     W, R = [0, 1, 50, 100], [0, 50, 100, 200]
+    # REPLICA SETTING as a dimension (optional 9th field of a plan): every history starts with "new"(s), s from
+    # the given settings - the driver creates the ring with NewCustomConsistentHash(s, fn); settings below the
+    # minimum (and 0) are raised to it (ConsistentHash.tla BaseOf), so with small weights (1, 4, 10) a node of
+    # positive weight must still be found.  All settings of a plan have the plan's base (ASSUMEd by the generator).
+    WS, SUB = [0, 1, 4, 10, 50, 100], (0, 1, 5, 50, 99, 100)
     # name[:option][/family]; family "drain" = only histories in which the ring returns to empty (few nodes, so
     # that long random histories drain again and again)
     if ctx.quick:
@@ -460,7 +507,9 @@ def run(ctx):
                  ("f2:fnv", ALL_NODES, W, R, 100, 2, None, 500),
                  ("kb2:kb", ALL_NODES, W, R, 100, 2, None, 500),
                  ("kc2:kc", ALL_NODES, W, R, 200, 2, None, 500),
-                 ("kbs:kb", ALL_NODES, W, R, 100, 30, 60, 2000)]
+                 ("kbs:kb", ALL_NODES, W, R, 100, 30, 60, 2000),
+                 ("c3", ALL_NODES[:2], WS, [0, 50], 100, 3, None, 500, SUB),
+                 ("c3f:fnv", ALL_NODES[:2], WS, [0, 50], 100, 3, None, 300, (5, 99))]
     else:
         plans = [("g3", ALL_NODES, W, R, 100, 3, None, 1000),
                  ("g3b", ALL_NODES[:3], W, R, 200, 3, None, 1000),
@@ -477,19 +526,28 @@ def run(ctx):
                  ("kc3:kc", ALL_NODES[:3], W, R, 100, 3, None, 500),
                  ("kbs:kb", ALL_NODES, W, R, 100, 30, 500, 2000),
                  ("kcs:kc", ALL_NODES, W, R, 200, 30, 500, 2000),
-                 ("fs30:fnv", ALL_NODES, W, R, 200, 30, 300, 2000)]
+                 ("fs30:fnv", ALL_NODES, W, R, 200, 30, 300, 2000),
+                 ("c3", ALL_NODES[:3], WS, [0, 50], 100, 3, None, 500, SUB),
+                 ("c4", ALL_NODES[:2], [0, 1, 10, 100], [0, 50], 100, 4, None, 300, SUB),
+                 ("c3b:kc", ALL_NODES[:2], WS, [0, 50, 200], 200, 3, None, 500, (200,)),
+                 ("c3f:fnv", ALL_NODES[:2], WS, [0, 50], 100, 3, None, 300, SUB),
+                 ("cs30", ALL_NODES[:3], WS, R, 100, 31, 300, 2000, SUB),
+                 ("cs30f:fnv", ALL_NODES[:3], WS, R, 100, 31, 100, 1000, SUB)]
     ctx.exhaustive = True
     acc = dict(min=9.9, max=0.0, seen=set())
     census = dict(drained=0, zero=0, revive=0)
-    for name, nodes, w, r, base, maxops, sim, pop in plans:
+    setc = {}
+    for name, nodes, w, r, base, maxops, sim, pop, *more in plans:
+        settings = tuple(more[0]) if more else ()
         name, _, family = name.partition("/")
         name, _, opt = name.partition(":")      # ":fnv" = caller-supplied hash function, ":kb"/":kc" = other node kinds
         hashfn = "fnv" if opt == "fnv" else ""
         kinds = opt[1:] if opt in ("kb", "kc") else "a"
-        cases = gen(ctx, name, nodes, w, r, base, maxops, simulate=sim, family=family or "all")
+        cases = gen(ctx, name, nodes, w, r, base, maxops, simulate=sim, family=family or "all", settings=settings)
         if not cases:
             raise core.Infra("generator %s produced no history" % name)
         drain_census(cases, base, census)
+        settings_census(cases, settings, setc)
         path, cnt = ctx.write_cases(name + ".ndjson", cases)
         ctx.samples += core.sample_of(cases, 1)
         hists = record(ctx, binp, name, path, base, pop, hashfn=hashfn, kinds=kinds)
@@ -506,6 +564,7 @@ def run(ctx):
     ctx.notes["share_ratio_min_max"] = [round(acc["min"], 3), round(acc["max"], 3)]
     ctx.notes["share_memberships_measured"] = len(acc["seen"])
     ctx.notes["returns_to_empty_ring"] = census
+    ctx.notes["replica_settings"] = {str(k): v for k, v in sorted(setc.items())}
     ctx.states = sum(t["distinct"] for t in ctx.tlc_runs)
     ctx.transitions = sum(t["generated"] for t in ctx.tlc_runs)
     ctx.assumptions.append("default hash function (murmur3); ring-position collisions between nodes are outside the claim")
@@ -516,6 +575,10 @@ def run(ctx):
         short = {k: (census[k], v) for k, v in need.items() if census[k] < v}
         if short:
             raise core.Infra("vacuous run: too few steps on rings that returned to empty (have, need): %s" % short)
+        # ... and on rings created with every replica setting below the minimum, with a lone node of small weight
+        short = {s: setc.get(s) for s in SUB if setc.get(s, {}).get("lone_small_weight", 0) < 10}
+        if short:
+            raise core.Infra("vacuous run: too few histories with a lone node of weight 1..10 per replica setting: %s" % short)
 
 
 def replay(ctx, rp):
